@@ -712,15 +712,44 @@ func (x *Exec) writeBackView(sl *Sym, st *State) {
 
 func (x *Exec) doGo(fr *Frame, in *ssa.Go, reach *Term, st *State) {
 	ci := x.resolveCallee(fr, &in.Call)
-	addUnique(&x.report.Abstracted, "go "+ci.key+" (spawn recorded, body not interleaved)")
-	// ghost: SPAWNED counter per callee key, if declared
-	g := "SPAWNED." + sanitize(shortName(ci.key))
-	for _, gv := range x.sp.Ghosts {
-		if gv.Name == g {
-			cur := x.hp.ghostGet(st, g)
-			st.ghost[g] = x.vc.name("G."+g, app(SInt, "+", cur, mkInt64(1)))
+	addUnique(&x.report.Abstracted, "go "+ci.key+" (spawn recorded in ghost SPAWN; the spawned body is not interleaved)")
+	// ghost log of spawned calls: SPAWN.n, SPAWN.fn[k], SPAWN.recv[k], SPAWN.arg[k] (first argument)
+	if !x.isGhost("SPAWN.n") {
+		return
+	}
+	n := x.hp.ghostGet(st, "SPAWN.n")
+	fnName := x.vc.strLit(ci.key)
+	st.ghost["SPAWN.fn"] = x.vc.name("G.SPAWN.fn", mkStore(x.hp.ghostGet(st, "SPAWN.fn"), n, fnName))
+	var recv, arg *Term
+	if ci.invoke {
+		recv = x.get(fr, in.Call.Value).term()
+		if len(in.Call.Args) > 0 {
+			a := x.get(fr, in.Call.Args[0])
+			if a.LV == nil && len(a.L) == 1 && a.L[0].Sort == SInt {
+				arg = a.L[0]
+			}
+		}
+	} else if len(in.Call.Args) > 0 {
+		a := x.get(fr, in.Call.Args[0])
+		if a.LV == nil && len(a.L) == 1 && a.L[0].Sort == SInt {
+			recv = a.L[0]
+		}
+		if len(in.Call.Args) > 1 {
+			b := x.get(fr, in.Call.Args[1])
+			if b.LV == nil && len(b.L) == 1 && b.L[0].Sort == SInt {
+				arg = b.L[0]
+			}
 		}
 	}
+	if recv == nil {
+		recv = x.vc.fresh("spawn.recv", SInt)
+	}
+	if arg == nil {
+		arg = x.vc.fresh("spawn.arg", SInt)
+	}
+	st.ghost["SPAWN.recv"] = x.vc.name("G.SPAWN.recv", mkStore(x.hp.ghostGet(st, "SPAWN.recv"), n, recv))
+	st.ghost["SPAWN.arg"] = x.vc.name("G.SPAWN.arg", mkStore(x.hp.ghostGet(st, "SPAWN.arg"), n, arg))
+	st.ghost["SPAWN.n"] = x.vc.name("G.SPAWN.n", bvBin("bvadd", n, mkBVu(1, 64)))
 }
 
 func (x *Exec) doDefer(fr *Frame, in *ssa.Defer, reach *Term, st *State) {
